@@ -724,7 +724,7 @@ func ruleTextCollectorSkipsHidden(c *eng.Ctx) {
 		}
 		// emits the data of text nodes
 		emits := false
-		for _, ci := range eng.Calls(f, false, func(nm string, _ ssa.CallInstruction) bool { return strings.HasSuffix(nm, ").WriteString") }) {
+		for _, ci := range eng.Calls(f, false, func(nm string, wc ssa.CallInstruction) bool { return isStringWrite(nm, wc) }) {
 			args := ci.Common().Args
 			if base, ok := htmlNodeField(args[len(args)-1], "Data"); ok && base == self {
 				emits = true
@@ -792,7 +792,7 @@ func ruleTextCollectorSkipsHidden(c *eng.Ctx) {
 			continue
 		}
 		emits, walks := false, false
-		for _, ci := range eng.Calls(f, true, func(nm string, _ ssa.CallInstruction) bool { return strings.HasSuffix(nm, ").WriteString") }) {
+		for _, ci := range eng.Calls(f, true, func(nm string, wc ssa.CallInstruction) bool { return isStringWrite(nm, wc) }) {
 			args := ci.Common().Args
 			if _, ok := htmlNodeField(args[len(args)-1], "Data"); ok {
 				emits = true
@@ -2285,7 +2285,7 @@ func ruleListKindPerLevel(c *eng.Ctx) {
 		}
 		// the bullet marker write
 		var bullets []ssa.CallInstruction
-		for _, ci := range eng.Calls(fn, false, func(nm string, _ ssa.CallInstruction) bool { return strings.HasSuffix(nm, ").WriteString") }) {
+		for _, ci := range eng.Calls(fn, false, func(nm string, wc ssa.CallInstruction) bool { return isStringWrite(nm, wc) }) {
 			args := ci.Common().Args
 			if s, ok := eng.ConstString(args[len(args)-1]); ok && (s == "- " || s == "* ") {
 				bullets = append(bullets, ci)
@@ -2379,7 +2379,7 @@ func ruleIndentFromOwnLevel(c *eng.Ctx) {
 			continue
 		}
 		n := 0
-		for _, ci := range eng.Calls(fn, false, func(nm string, _ ssa.CallInstruction) bool { return strings.HasSuffix(nm, ").WriteString") }) {
+		for _, ci := range eng.Calls(fn, false, func(nm string, wc ssa.CallInstruction) bool { return isStringWrite(nm, wc) }) {
 			args := ci.Common().Args
 			arg := args[len(args)-1]
 			if s, ok := eng.ConstString(arg); ok {
